@@ -395,6 +395,8 @@ void vf_block_until(uint32_t* w) {
     if (g_threads_used) vf_yield(-4); else break;
   }
 }
+void vf_race_write(const void*) {}
+void vf_race_read(const void*) {}
 void vf_atomic_begin() {}
 void vf_atomic_end() {}
 int vf_self() { return t_id; }
